@@ -91,6 +91,9 @@ func (m *MsgUpdateDetailsRequest) ValidateBasic() error {
 	if m.Proof.Bandwidth.IsAnyNegative() {
 		return sdkerrors.Wrap(ErrorInvalidMessage, "proof.bandwidth cannot be negative")
 	}
+	if m.Proof.Bandwidth.Upload.BigInt().BitLen() > 128 || m.Proof.Bandwidth.Download.BigInt().BitLen() > 128 {
+		return sdkerrors.Wrap(ErrorInvalidMessage, "proof.bandwidth cannot be greater than 2^128 bytes")
+	}
 	if m.Proof.Duration < 0 {
 		return sdkerrors.Wrap(ErrorInvalidMessage, "proof.duration cannot be negative")
 	}
